@@ -121,16 +121,41 @@ def _init_worker(fn_path):
     sys.setrecursionlimit(10000)
 
 
+class JobTimeout(BaseException):
+    pass
+
+
+def _on_alarm(signum, frame):
+    raise JobTimeout()
+
+
 def _run_job(job):
+    """one job under a wall-clock limit (VERIF_JOB_TIMEOUT, default 600 s): a job that exceeds it is reported as
+    'timed_out' - counted as inconclusive by the drivers, never as passed"""
+    import signal
     t0 = time.time()
+    limit = int(float(os.environ.get("VERIF_JOB_TIMEOUT", "600")))
+    try:
+        signal.signal(signal.SIGALRM, _on_alarm)
+        signal.alarm(limit)
+    except (ValueError, OSError):
+        pass
     try:
         r = _WORKER_FN(job)
         if not isinstance(r, dict):
             r = {"result": r}
+    except JobTimeout:
+        r = {"timed_out": True, "id": job.get("id") if isinstance(job, dict) else None, "status": "timeout", "violations": [],
+             "detail": "job exceeded %d s" % limit, "inconclusive": 1, "obligations": 1}
     except BaseException as e:  # noqa
         if isinstance(e, KeyboardInterrupt):
             raise
         r = {"harness_error": "%s: %s" % (type(e).__name__, e), "trace": traceback.format_exc()[-2000:]}
+    finally:
+        try:
+            signal.alarm(0)
+        except (ValueError, OSError):
+            pass
     r["_job"] = job.get("id") if isinstance(job, dict) else None
     r["_t"] = round(time.time() - t0, 3)
     return r
